@@ -3,4 +3,5 @@
 using namespace simd;
 using D = wrapped_interval_domain<z_number, varname_t>;
 // machine-integer semantics: only run under the BV profile
-SIM_REGISTER_DOMAIN(wrapped_intervals, D, "wrapped_intervals", CAP_NONREL | CAP_BV)
+SIM_REGISTER_DOMAIN(wrapped_intervals, D, "wrapped_intervals",
+                    CAP_NONREL | CAP_BV)
